@@ -600,8 +600,11 @@ func c37GenCreate(rt *rapid.T, m *c37Model) c37Stmt {
 		}
 	}
 	// foreign key to the parent table p(id INT PRIMARY KEY)
-	if ints := tmp.colsOf("int"); len(ints) > 0 && rapid.IntRange(0, 3).Draw(rt, "fk") == 0 {
-		c := ints[rapid.IntRange(0, len(ints)-1).Draw(rt, "fk.col")]
+	if rapid.IntRange(0, 3).Draw(rt, "fk") == 0 {
+		c := c37Col{Name: "fkc", Class: "int"}
+		cols = append(cols, c)
+		refs = append(refs, c.Name)
+		defs = append(defs, "`fkc` INT")
 		defs = append(defs, fmt.Sprintf("CONSTRAINT `fk_p` FOREIGN KEY (`%s`) REFERENCES `p` (`id`)%s", c.Name,
 			rapid.SampledFrom([]string{"", " ON DELETE CASCADE", " ON DELETE SET NULL ON UPDATE CASCADE", " ON UPDATE RESTRICT"}).Draw(rt, "fk.action")))
 	}
@@ -797,6 +800,25 @@ func c37GenAlter(rt *rapid.T, m *c37Model) c37Stmt {
 // ---------------------------------------------------------------------------------------
 // the check
 
+// c37ErrClass reduces an error message to a short class label (identifiers and literals removed).
+func c37ErrClass(err error) string {
+	msg := err.Error()
+	if i := strings.Index(msg, ": "); i >= 0 && strings.HasPrefix(msg, "Error ") {
+		msg = msg[i+2:]
+	}
+	var b strings.Builder
+	for _, w := range strings.Fields(msg) {
+		if strings.ContainsAny(w, "`'\"0123456789") {
+			w = "_"
+		}
+		b.WriteString(w + " ")
+		if b.Len() > 60 {
+			break
+		}
+	}
+	return strings.TrimSpace(b.String())
+}
+
 // c37CurProg is the program of the running case (for messages only).
 var c37CurProg string
 
@@ -868,6 +890,7 @@ func TestVerif_C37(t *testing.T) {
 		create := c37GenCreate(rt, m)
 		if err := s1.Exec(create.SQL); err != nil {
 			recRT.Class("create_rejected", 1)
+			recRT.Class("create_rejected: "+c37ErrClass(err), 1)
 			rt.Logf("CREATE rejected: %s: %v", create.SQL, err)
 			return
 		}
